@@ -2,7 +2,7 @@
 
     Executable model of
       - src/config.rs : DefaultShard deserialisation (901-920), fill_up_auth_query_config
-        (1139-1155), Config::validate (1505-1599), Pool::validate (701-831),
+        (1150-1166), Config::validate (1516-1610), Pool::validate (701-831),
         Shard::validate (938-989), User::validate (250-278), is_auth_query_configured (644-648);
       - src/pool.rs   : ConnectionPool::from_config (312-629) — the order in which shard keys
         are sorted, what number each Address carries and at which POSITION its bb8 pool, its
@@ -11,7 +11,7 @@
         of get (724-802), ban/unban/is_banned/try_unban (952-1022), servers/pool_state/
         address (1064-1085), admin.rs:355-360 and auth_passthrough.rs:127, each as a checked
         [nth_error].
-    (line numbers as of /repo commit dae4e52)
+    (line numbers as of /repo commit 0edee1c)
 
     The configuration is the value AFTER toml/serde produced the Rust structs (typed roles,
     ports, sizes); the only deserialiser modelled is the hand-written one of DefaultShard.
@@ -267,7 +267,7 @@ Definition pool_validate (p : pool) : bool :=
     else true
   end.
 
-(* config.rs:1139-1155 (only is_some() matters afterwards) *)
+(* config.rs:1150-1166 (only is_some() matters afterwards) *)
 Definition fill_pool (c : config) (p : pool) : pool :=
   {| p_name := p_name p; p_default_role := p_default_role p; p_default_shard := p_default_shard p;
      p_parser := p_parser p; p_rw_split := p_rw_split p; p_plugins := p_plugins p;
@@ -286,20 +286,20 @@ Definition fill_up (c : config) : config :=
      g_server_lifetime := g_server_lifetime c;
      c_pools := map (fill_pool c) (c_pools c) |}.
 
-(* config.rs:1533-1563 for one pool *)
+(* config.rs:1544-1574 for one pool *)
 Definition pool_auth_bad (p : pool) : bool :=
   (p_auth_query p && (negb (p_auth_user p) || negb (p_auth_password p)))
   || existsb (fun ku => (negb (p_auth_query p) || negb (p_auth_password p) || negb (p_auth_user p))
                         && negb (u_password (snd ku))) (p_users p).
 
-(* config.rs:1505-1599 (the TLS block, 1566-1592, is outside the grammar: no certificate set) *)
+(* config.rs:1516-1610 (the TLS block, 1580-1606, is outside the grammar: no certificate set) *)
 Definition config_validate (c : config) : bool :=
   if g_auth_query c && (negb (g_auth_user c) || negb (g_auth_password c)) then false else
   if (g_connect_timeout c =? 0) || (g_idle_timeout c =? 0) || (g_server_lifetime c =? 0) then false else
   if existsb pool_auth_bad (c_pools c) then false else
   forallb pool_validate (c_pools c).
 
-(* config.rs:1640-1641 *)
+(* config.rs:1654-1655 *)
 Definition accept (c : config) : bool := config_validate (fill_up c).
 
 (** ** from_config *)
